@@ -17,6 +17,7 @@ def shift_value(kind, dx):
     return None if SHIFTS[kind] is None else SHIFTS[kind] * dx
 DXS = [0.125, 0.1, 0.013]
 SHAPES = {2: (14, 17), 3: (12, 13, 15)}
+LARGE_DXS = [1.7, 7.5]  # spacings above 1 (physical and grid-unit distances differ the other way round)
 
 
 class Comm:
